@@ -24,7 +24,7 @@ def numbers():
         ("Mixed planner, cache, tabulation, iterator (both paths)", "mixed."),
         ("Revolve-family iterator, _convert_action, constructor, observers", "hrevolve."),
         ("sequence tables and builders (argmin, Table, OPT0, revolve, OPTINF, disk_revolve, PERIOD, "
-         "periodic_disk_revolve, get_hopt_table, revolver_parameters)", "seq."),
+         "periodic_disk_revolve, get_hopt_table, hrevolve_aux/recurse, hrevolve, revolver_parameters)", "seq."),
         ("lemmas (CNT induction, arithmetic, finalize-before-first-action)", ("lemma.", "ghost.lemmas")),
         ("AST frame obligations", "frame."),
     ]
